@@ -16,10 +16,10 @@ Q_FIELDS = ["mixture_fraction", "temp", "HeatRelease", "Y(O2)", "vort"]
 
 
 def pair_specs(rng, nlev=None, kinds=None):
-    p = plotgen.random_spec(rng, ndims=3, nlev=nlev or rng.choice([1, 2, 2, 3]), nf=rng.randint(1, 4), data="bits", B=2)
+    p = plotgen.random_spec(rng, ndims=3, nlev=nlev or rng.choice([1, 2, 2, 3]), nf=rng.choice([1, 2, 3, 4, 4, 5]), data="bits", B=2)
     p["fields"] = P_FIELDS[: len(p["fields"])]
     q = copy.deepcopy(p)
-    q["fields"] = rng.sample(Q_FIELDS, rng.randint(1, 4))
+    q["fields"] = rng.sample(Q_FIELDS, rng.choice([1, 2, 3, 4, 4, 5]))
     q["data"] = {"mode": "bits", "seed": rng.randrange(1 << 30)}
     kp, kq = kinds or (rng.choice(["mono", "perm", "files", "scatter"]), rng.choice(["mono", "perm", "files", "scatter", "same"]))
     p["layout"] = plotgen.random_layout(rng, p["levels"], kp)
@@ -38,6 +38,15 @@ def selection_forms(rng, pn, qn):
     pn, qn = list(pn), list(qn)
     out = [(None, None), (None, list(qn)), (" ".join(pn[::-1]), None), (pn[:1], qn[:1]),
            (pn[0] + " nope", qn[::-1] + ["nope"]), (list(pn), " ".join(qn))]
+
+    def inner_shuffled(names):
+        # lowest field first, highest last, the fields between them out of file order (a "contiguous" block that is no range)
+        if len(names) < 3:
+            return list(names)
+        mid = names[1:-1][::-1] if len(names) <= 4 else rng.sample(names[1:-1], len(names) - 2)
+        return names[:1] + mid + names[-1:]
+    out.append((inner_shuffled(pn), " ".join(inner_shuffled(qn))))
+    out.append((" ".join(rng.sample(pn, len(pn))), rng.sample(qn, rng.randint(1, len(qn)))))
     return out
 
 
@@ -56,21 +65,24 @@ def tree_listing(root):
     return sorted(out)
 
 
-def run_case(ctx, rep, p, q, vars1, vars2, model, kinds=("?", "?"), start=None, expect_refusal=None):
+FINISH = {None: None, "reversed": pools.order_reversed, "rot1": pools.order_rot(1)}    # delivery order of unordered results
+
+
+def run_case(ctx, rep, p, q, vars1, vars2, model, kinds=("?", "?"), start=None, expect_refusal=None, finish=None):
     from amr_kitchen import PlotfileCooker
     from amr_kitchen.combine.combine import combine
     d1, d2 = ctx.newdir("c06a_"), ctx.newdir("c06b_")
     plotgen.materialize(p, d1); plotgen.materialize(q, d2)
     work = ctx.newdir("c06w_"); os.makedirs(work)
     out = os.path.join(work, "out")
-    case = {"p": p, "q": q, "vars1": vars1, "vars2": vars2, "kinds": list(kinds), "expect_refusal": expect_refusal}
+    case = {"p": p, "q": q, "vars1": vars1, "vars2": vars2, "kinds": list(kinds), "expect_refusal": expect_refusal, "finish": finish}
     rep.case({"p": p, "q": q, "v1": vars1, "v2": vars2}, nontrivial=(kinds[0] != "mono" or kinds[1] not in ("mono", "same")
                                                                    or vars1 is not None or vars2 is not None or bool(expect_refusal)))
     rep.count(f"layouts:{kinds[0]}/{kinds[1]}")
     rep.count("sel:" + ("none" if vars1 is None else type(vars1).__name__) + "/" + ("none" if vars2 is None else type(vars2).__name__))
     raised = None
     try:
-        with alarm(180), quiet(), pools.controlled(start=start):
+        with alarm(180), quiet(), pools.controlled(start=start, finish=FINISH[finish]):
             combine(PlotfileCooker(d1), PlotfileCooker(d2), pltout=out, vars1=vars1, vars2=vars2)
     except Exception as e:
         raised = e
@@ -187,9 +199,10 @@ def run(ctx, rep, model=True):
         p, q, kinds = pair_specs(ctx.rng, kinds=lay_pairs[i % len(lay_pairs)])
         forms = selection_forms(ctx.rng, dedup_names(p["fields"]), dedup_names(q["fields"]))
         for j, (v1, v2) in enumerate(forms):
-            if ctx.quick and j not in (0, 1 + i % 5):
+            if ctx.quick and j not in (0, 1 + i % 7):
                 continue
-            run_case(ctx, rep, p, q, v1, v2, model, kinds, start=[None, pools.order_reversed][j % 2])
+            run_case(ctx, rep, p, q, v1, v2, model, kinds, start=[None, pools.order_reversed][j % 2],
+                     finish=[None, "reversed", "rot1"][(i + j) % 3])
         if i % 3 == 0:
             for kind, q2 in mismatches(ctx.rng, p, q):
                 run_case(ctx, rep, p, q2, None, None, model, kinds, expect_refusal=kind)
@@ -202,4 +215,4 @@ def run(ctx, rep, model=True):
 def replay(ctx, rep, obj, model=True):
     c = obj["case"]
     run_case(ctx, rep, c["p"], c["q"], c["vars1"], c["vars2"], model, tuple(c.get("kinds", ("?", "?"))),
-             expect_refusal=c.get("expect_refusal"))
+             expect_refusal=c.get("expect_refusal"), finish=c.get("finish"))
